@@ -14,8 +14,17 @@ Open Scope Z_scope.
 
 (* ================= 1. the syntactic test *)
 
+(* all variables of a term (= ast.AddVars, Analysis/RuleCheck.term_vars) *)
+Fixpoint tvars (t : term) : list Z :=
+  match t with
+  | TVar v => [v]
+  | TConst _ => []
+  | TApp _ args => flat_map tvars args
+  end.
+
 (* variables certainly bound to a constant in every solution that survives the premise,
-   given that the variables of B are: whole arguments of a positive atom; a variable
+   given that the variables of B are: the variables of a positive atom (those inside a
+   function application must have a value for the atom to be evaluated at all); a variable
    equated with a term that is not a variable; a variable equated with a bound variable *)
 Definition eq_binds (B : list Z) (l r : term) : list Z :=
   match l, r with
@@ -27,7 +36,7 @@ Definition eq_binds (B : list Z) (l r : term) : list Z :=
 
 Definition binds_after (B : list Z) (p : premise) : list Z :=
   match p with
-  | PAtom a => flat_map dvar (aargs a) ++ B
+  | PAtom a => flat_map tvars (aargs a) ++ B
   | PEq l r => eq_binds B l r
   | _ => B
   end.
@@ -95,6 +104,27 @@ Proof.
   - destruct (eval_term_nonvar s (TApp f args) (VVar v)) as (c & Hc); [discriminate | exact H | discriminate].
 Qed.
 
+(* a term with a value has all its variables bound *)
+Lemma eval_term_const_vars s : forall t c, eval_term s t = Some (VConst c) -> forall v, In v (tvars t) -> bnd s v.
+Proof.
+  induction t as [x|d|f args IH] using term_ind2; intros c H v Hv.
+  - destruct Hv as [<-|[]]. rewrite eval_term_tvar in H. unfold get_of in H. unfold bnd.
+    destruct (lookup x s); [discriminate | congruence].
+  - destruct Hv.
+  - rewrite eval_term_app in H. destruct (eval_consts s args) as [cs|] eqn:E; [|discriminate].
+    cbn [tvars] in Hv. apply in_flat_map in Hv as (a & Ha & Hv).
+    destruct (map_opt_spec _ _ _ E) as [Hd _]. destruct (Hd _ Ha) as (ca & Hca).
+    rewrite Forall_forall in IH.
+    destruct (eval_term s a) as [[d|w]|] eqn:Ea; try discriminate. eapply IH; eauto.
+Qed.
+
+Lemma eval_term_vars_cases s t pv v : eval_term s t = Some pv -> In v (tvars t) -> pv = VVar v \/ bnd s v.
+Proof.
+  intros H Hv. destruct pv as [c|w].
+  - right. eapply eval_term_const_vars; eauto.
+  - left. apply eval_term_var_inv in H as [-> _]. destruct Hv as [<-|[]]. reflexivity.
+Qed.
+
 Lemma get_of_bnd s x : bnd s x -> exists c, get_of s x = VConst c.
 Proof. unfold bnd, get_of. destruct (lookup x s); [eauto | congruence]. Qed.
 
@@ -129,11 +159,10 @@ Proof.
     apply in_fmap in Hu as (f & _ & Hm). unfold match_fact in Hm. destruct (fst f =? apred a); [|discriminate].
     destruct (unify_args_bnd _ _ _ _ Hm) as [M N].
     intros v Hv. apply in_app_or in Hv as [Hv|Hv]; [|auto].
-    apply in_flat_map in Hv as (t & Ht & Hvt). destruct t as [x|c|g args]; [|destruct Hvt|destruct Hvt]. destruct Hvt as [->|[]].
+    apply in_flat_map in Hv as (t & Ht & Hvt).
     destruct (map_opt_spec _ _ _ Ea) as [Hd Hr]. destruct (Hd _ Ht) as (pv & Hpv).
     assert (Hin : In pv pvs) by (apply Hr; eauto).
-    rewrite eval_term_tvar in Hpv. injection Hpv as <-. unfold get_of in Hin.
-    destruct (lookup v s) as [d|] eqn:E; [apply M; unfold bnd; congruence | auto].
+    destruct (eval_term_vars_cases _ _ _ _ Hpv Hvt) as [->|Hbs]; [apply N; exact Hin | apply M; exact Hbs].
   - destruct (eval_args s (aargs a)) as [pvs|]; [|discriminate]. injection H as <-.
     destruct (existsb _ Sneg); [destruct Hu|]. destruct Hu as [<-|[]]. exact Hb.
   - assert (Hev : exists a b, eval_term s l = Some a /\ eval_term s r = Some b).
@@ -414,4 +443,130 @@ Proof.
     assert (Hs : sub_premise W V e = PEq (TVar V) (TVar V)).
     { destruct (sub_term_alias W V) as [A B]. destruct He as [->| ->]; cbn [sub_premise]; rewrite A, B; reflexivity. }
     rewrite Hs. rewrite eval_clause_uf_eq_refl_removable. rewrite map_length. reflexivity.
+Qed.
+
+(* ================= 6. the test is implied by C04's: a clause that CheckRule accepts (the
+   model Analysis/RuleCheck.check) and that is alias_free there (every variable = variable
+   equality has a side CheckRule counts as bound at that point) passes no_alias_body after
+   ReplaceWildcards - the form in which the engine model evaluates it. What CheckRule
+   counts as bound (cs_bound) is always among the certainly bound variables of
+   binds_after. Only the model file of the analysis is used, qualified. *)
+From MV Require Analysis.RuleCheck.
+
+Lemma tvars_term_vars : forall t, RuleCheck.term_vars t = tvars t.
+Proof.
+  intros t. reflexivity.   (* the two fixpoints are the same term *)
+Qed.
+
+Lemma atom_vars_tvars a : RuleCheck.atom_vars a = flat_map tvars (aargs a).
+Proof.
+  unfold RuleCheck.atom_vars, RuleCheck.terms_vars. induction (aargs a) as [|t l IH]; [reflexivity|].
+  cbn [flat_map]. rewrite tvars_term_vars, IH. reflexivity.
+Qed.
+
+Lemma memZ_incl x B B' : incl B B' -> memZ x B = true -> memZ x B' = true.
+Proof. intros Hi H. apply memZ_spec. apply Hi. apply memZ_spec. exact H. Qed.
+
+Lemma alias_ok_mono B B' p : incl B B' -> alias_ok B p = true -> alias_ok B' p = true.
+Proof.
+  intros Hi. destruct p as [a|a|l r|l r|op l r]; auto. destruct l as [x|c|f args]; auto. destruct r as [y|d|g args']; auto.
+  cbn [alias_ok]. intros H. apply orb_true_iff in H as [H|H]; [apply orb_true_iff in H as [H|H]|].
+  - rewrite H. reflexivity.
+  - rewrite (memZ_incl _ _ _ Hi H). rewrite orb_true_r. reflexivity.
+  - rewrite (memZ_incl _ _ _ Hi H). rewrite orb_true_r. reflexivity.
+Qed.
+
+Lemma incl_cons2 {A} (x : A) l l' : incl l l' -> incl (x :: l) (x :: l').
+Proof. intros H a [<-|Ha]; [left; reflexivity | right; auto]. Qed.
+
+Lemma binds_after_mono B B' p : incl B B' -> incl (binds_after B p) (binds_after B' p).
+Proof.
+  intros Hi. destruct p as [a|a|l r|l r|op l r]; cbn [binds_after]; auto.
+  - apply incl_app; [apply incl_appl, incl_refl | apply incl_appr; exact Hi].
+  - destruct l as [x|c|f args], r as [y|d|g args']; cbn [eq_binds]; auto using incl_cons2.
+    destruct (memZ x B || memZ y B) eqn:E.
+    + assert (E' : memZ x B' || memZ y B' = true).
+      { apply orb_true_iff in E as [E|E]; rewrite (memZ_incl _ _ _ Hi E); auto using orb_true_r. }
+      rewrite E'. auto using incl_cons2.
+    + destruct (memZ x B' || memZ y B'); [|exact Hi]. intros v Hv. right; right. auto.
+Qed.
+
+Lemma no_alias_body_mono body : forall B B', incl B B' -> no_alias_body B body = true -> no_alias_body B' body = true.
+Proof.
+  induction body as [|p b IH]; intros B B' Hi H; cbn [no_alias_body] in *; [reflexivity|].
+  apply andb_true_iff in H as [H1 H2]. rewrite (alias_ok_mono _ _ _ Hi H1).
+  apply (IH _ _ (binds_after_mono _ _ p Hi) H2).
+Qed.
+
+Lemma check_eq_bound st l r st1 B : RuleCheck.check_eq st l r = Some st1 ->
+  incl (RuleCheck.cs_bound st) B -> incl (RuleCheck.cs_bound st1) (eq_binds B l r).
+Proof.
+  intros H Hi.
+  assert (Hc : forall x, incl (RuleCheck.cs_bound (RuleCheck.bind st [x])) (x :: B)).
+  { intros x. cbn. apply incl_cons2. exact Hi. }
+  assert (Hxy : forall x y, incl (RuleCheck.cs_bound st) (eq_binds B (TVar x) (TVar y))).
+  { intros x y. cbn [eq_binds]. destruct (memZ x B || memZ y B); [|exact Hi]. intros v Hv. right; right; auto. }
+  unfold RuleCheck.check_eq in H.
+  destruct l as [x|c|f args], r as [y|d|g args']; cbn [RuleCheck.is_app andb] in H;
+    repeat match type of H with (if ?b then _ else _) = Some _ => destruct b end;
+    try discriminate; injection H as <-; cbn [eq_binds]; auto.
+  exact (Hxy x y).
+Qed.
+
+Lemma check_premise_bound st o p st1 B : RuleCheck.check_premise st o p = Some st1 ->
+  incl (RuleCheck.cs_bound st) B -> incl (RuleCheck.cs_bound st1) (binds_after B p).
+Proof.
+  intros H Hi. destruct p as [a|a|l r|l r|op l r]; cbn [RuleCheck.check_premise binds_after] in *.
+  - injection H as <-. cbn. rewrite atom_vars_tvars. apply incl_app; [apply incl_appl, incl_refl | apply incl_appr; exact Hi].
+  - destruct o as [| a' | | |]; try discriminate. destruct (forallb _ _); [|discriminate]. injection H as <-. exact Hi.
+  - eapply check_eq_bound; eauto.
+  - destruct (forallb _ _); [|discriminate]. injection H as <-. exact Hi.
+  - destruct (RuleCheck.subsetZ _ _); [|discriminate]. injection H as <-. exact Hi.
+Qed.
+
+Lemma rc_alias_ok B st p : incl (RuleCheck.cs_bound st) B -> RuleCheck.alias_ok st p = true -> alias_ok B p = true.
+Proof.
+  intros Hi. destruct p as [a|a|l r|l r|op l r]; auto. destruct l as [x|c|f args]; auto. destruct r as [y|d|g args']; auto.
+  cbn [RuleCheck.alias_ok alias_ok]. intros H. apply orb_true_iff in H as [H|H];
+    rewrite (memZ_incl _ _ _ Hi H); destruct (x =? y); simpl; auto using orb_true_r.
+Qed.
+
+Lemma alias_free_body_no_alias origs : forall ps st st' B,
+  RuleCheck.check_body st origs ps = Some st' -> RuleCheck.alias_free_body st origs ps = true ->
+  length origs = length ps -> incl (RuleCheck.cs_bound st) B -> no_alias_body B ps = true.
+Proof.
+  induction origs as [|o origs IH]; intros [|p ps] st st' B Hc Ha Hl Hi; try discriminate; [reflexivity|].
+  cbn [RuleCheck.check_body RuleCheck.alias_free_body no_alias_body] in *.
+  destruct (RuleCheck.check_premise st o p) as [st1|] eqn:E; [|discriminate].
+  apply andb_true_iff in Ha as [Ha1 Ha2]. rewrite (rc_alias_ok _ _ _ Hi Ha1).
+  apply (IH ps st1 st' _ Hc Ha2); [simpl in Hl; congruence|]. eapply check_premise_bound; eauto.
+Qed.
+
+Lemma rw_body_length b : forall n, length (RuleCheck.rw_body n b) = length b.
+Proof.
+  induction b as [|p b IH]; intros n; cbn [RuleCheck.rw_body]; [reflexivity|].
+  destruct (RuleCheck.rw_premise n p) as [n' p']. simpl. rewrite IH. reflexivity.
+Qed.
+
+Theorem checked_alias_free_static cr :
+  RuleCheck.check cr = true -> RuleCheck.alias_free cr = true ->
+  no_alias_clause (RuleCheck.replace_wildcards cr) = true.
+Proof.
+  unfold RuleCheck.check, RuleCheck.alias_free, no_alias_clause. intros Hc Ha.
+  destruct (RuleCheck.check_body _ (cbody cr) (cbody (RuleCheck.replace_wildcards cr))) as [st'|] eqn:E; [|discriminate].
+  eapply alias_free_body_no_alias; eauto.
+  - cbn [RuleCheck.replace_wildcards cbody]. rewrite rw_body_length. reflexivity.
+  - cbn. apply incl_refl.
+Qed.
+
+(* programs made of checked alias-free clauses (evaluated, as always, after ReplaceWildcards) *)
+Theorem eval_program_uf_exact_checked fuel Pr layers store init Res :
+  (forall cr, In cr Pr -> RuleCheck.check cr = true /\ RuleCheck.alias_free cr = true) ->
+  valid_stratification (map RuleCheck.replace_wildcards Pr) layers ->
+  eval_program_uf false fuel (map RuleCheck.replace_wildcards Pr) layers store init = Ok Res ->
+  forall f, In f Res <-> slfp (map RuleCheck.replace_wildcards Pr) layers (fun g => In g (add_all store init)) f.
+Proof.
+  intros Hc Hv H. apply (eval_program_uf_exact_static fuel _ layers store init Res Hv); [|exact H].
+  unfold no_alias_program. apply forallb_forall. intros c Hin. apply in_map_iff in Hin as (cr & <- & Hcr).
+  destruct (Hc _ Hcr). apply checked_alias_free_static; auto.
 Qed.
